@@ -13,12 +13,13 @@ class ProgGen:
         self.rng = rng
         self.tag = tag
         self.lab = 0
-        # a function that ends up with both a `switch` and a `jmpi` after inlining is miscompiled by the
-        # generator on the pinned tree even in a one-shot history (outside C16): keep the two apart
-        # (also `jmpi` placed after a call insn jumps to a wrong address on the pinned tree, so label
-        # tables come first in their function and `laddr` — inlinable — is used only in "mixed"
-        # programs, which are never executed: they feed the structural tie)
-        self.flavour = flavour or ("switch" if rng.chance(1, 2) else "lref")
+        # flavours: "switch" (no computed jumps), "lref" (label tables first in their function),
+        # "mixed" (everything: switch, laddr/jmpi, lref tables anywhere).  On earlier revisions of the
+        # pinned tree one-shot generation of some "mixed" programs was already wrong (switch + jmpi in
+        # one function after inlining); the behavioural tie therefore always runs the canonical and the
+        # pure-interpretation history first and skips (and counts) programs for which those fail.
+        self.flavour = flavour or __import__("os").environ.get("C16_FLAVOUR") or \
+            rng.choice(["switch", "lref", "mixed", "mixed"])
         self.funcs = {}        # name -> {"callees": [...], "lref": bool, "module": str, "snips": [...]}
         self.modules = []      # (name, text, [func names], late?)
         base_names = [f"f{tag}_{i}" for i in range(nbase)]
